@@ -78,12 +78,14 @@ ExitF(s) ==
 StepF(s, e) ==
   CASE e.act = "Enter"   -> EnterF(s, e.t, e.g)
     [] e.act = "Display" -> DisplayF(s, e.v)
+    \* the same inside a try/except placed IN the block: an invalid value is rejected right there and nothing is left behind
+    [] e.act = "DisplayC" -> IF e.v \in BadVals THEN s ELSE DisplayF(s, e.v)
     [] e.act = "Raise"   -> RaiseF(s)
     [] e.act = "Exit"    -> ExitF(s)
 \* which events a well-formed program can produce in state s
 Enabled(s, e) ==
   CASE e.act = "Enter"   -> s.exc = None /\ (s.prev[e.t] # None => Active(s, e.t))
-    [] e.act = "Display" -> s.exc = None /\ s.stack # <<>>
+    [] e.act \in {"Display", "DisplayC"} -> s.exc = None /\ s.stack # <<>>
     [] e.act = "Raise"   -> s.exc = None /\ s.stack # <<>>
     [] e.act = "Exit"    -> s.stack # <<>>
 =============================================================================
